@@ -18,6 +18,8 @@
 #include <cstring>
 #include <functional>
 
+#include <unistd.h>
+
 #include "prop.h"
 
 using namespace vp;
@@ -153,6 +155,10 @@ struct World
     Case &c;
     std::vector<Obj> objs;
     std::set<std::pair<int, int>> eq; // unordered pairs (lo, hi)
+    std::map<std::pair<int, int>, std::string> mids; // expected mapping id of every pair in eq ("" = none)
+    std::set<std::pair<int, int>> idsLeftBehind; // pairs that had a mapping id when removeAllEquivalences() removed them
+    std::map<int, uint64_t> lastProbe; // model -> configuration of its equivalences at the last service probe
+    bool avoidKnown = false;
     int counts[NKINDS] = {0, 0, 0, 0, 0};
     std::string log; // human readable history
     bool sawLookalikeOp = false, sawLinkedDrop = false;
@@ -353,6 +359,7 @@ struct World
         }
         for (auto it = eq.begin(); it != eq.end();) {
             if (!o(it->first).alive || !o(it->second).alive) {
+                mids.erase(*it);
                 it = eq.erase(it);
             } else {
                 ++it;
@@ -515,6 +522,15 @@ struct World
                 if (!v->hasEquivalentVariable(get<Variable>(w))) {
                     return "I4|" + ob.label + "->hasEquivalentVariable(" + o(w).label + ") is false";
                 }
+                // the mapping id is part of the equivalence: same on both sides, gone when the equivalence is removed
+                // (connection ids are per pair of components and are not compared here)
+                auto key = std::make_pair(std::min(static_cast<int>(x), w), std::max(static_cast<int>(x), w));
+                auto mid = mids.find(key);
+                std::string wantId = mid == mids.end() ? std::string() : mid->second;
+                std::string gotId = Variable::equivalenceMappingId(v, get<Variable>(w));
+                if (gotId != wantId) {
+                    return "I4|equivalenceMappingId(" + ob.label + ", " + o(w).label + ") is \"" + gotId + "\", expected \"" + wantId + "\"";
+                }
             }
         }
         return "";
@@ -660,6 +676,182 @@ struct World
         return o(cl.K).label + "->" + base + "(" + args + ")";
     }
 
+    // ---------------------------------------------------------------- service probes
+    // After a call that changed which variables of a model are equivalent to what, the whole-model services are run on
+    // that model: clone() (and the clone is compared), and - when an equivalence crosses the model's border, i.e. one
+    // end was removed / taken / never added / sits in another model - also flattenModel(), printModel() and
+    // validateModel(), all in a forked child. No tape value is consumed, so saved tapes keep their meaning.
+    void modelVariables(const ComponentEntityPtr &e, std::vector<VariablePtr> &out) const
+    {
+        for (size_t i = 0; i < e->componentCount(); ++i) {
+            auto comp = e->component(i);
+            for (size_t k = 0; k < comp->variableCount(); ++k) {
+                out.push_back(comp->variable(k));
+            }
+            modelVariables(comp, out);
+        }
+    }
+    // "" when clone() reproduces exactly the equivalences between variables of the model, position by position
+    std::string cloneCheck(int m) const
+    {
+        auto model = get<Model>(m);
+        auto copy = model->clone();
+        if (copy == nullptr) {
+            return "clone() returned null";
+        }
+        std::vector<VariablePtr> ov, cv;
+        modelVariables(model, ov);
+        modelVariables(copy, cv);
+        if (ov.size() != cv.size()) {
+            return "the clone has " + std::to_string(cv.size()) + " variables, the original " + std::to_string(ov.size());
+        }
+        auto indexIn = [](const std::vector<VariablePtr> &l, const VariablePtr &v) {
+            for (size_t i = 0; i < l.size(); ++i) {
+                if (l[i] == v) {
+                    return static_cast<long>(i);
+                }
+            }
+            return -1L;
+        };
+        for (size_t i = 0; i < ov.size(); ++i) {
+            std::set<long> want, got;
+            for (size_t k = 0; k < ov[i]->equivalentVariableCount(); ++k) {
+                long j = indexIn(ov, ov[i]->equivalentVariable(k));
+                if (j >= 0) {
+                    want.insert(j);
+                }
+            }
+            for (size_t k = 0; k < cv[i]->equivalentVariableCount(); ++k) {
+                long j = indexIn(cv, cv[i]->equivalentVariable(k));
+                if (j < 0) {
+                    return "variable #" + std::to_string(i) + " of the clone is equivalent to a variable that is not in the clone";
+                }
+                got.insert(j);
+            }
+            if (want != got) {
+                return "variable #" + std::to_string(i) + " of the clone has " + std::to_string(got.size()) + " equivalences inside the clone, the original has " + std::to_string(want.size())
+                       + " inside the model (an equivalence was invented or lost)";
+            }
+        }
+        return "";
+    }
+    struct ProbeJob
+    {
+        const World *w;
+        int m;
+    };
+    static void probeChild(void *arg)
+    {
+        auto *j = static_cast<ProbeJob *>(arg);
+        auto say = [](const std::string &t) {
+            std::string l = "VP-PROBE-AT " + t + "\n";
+            ssize_t r = write(2, l.data(), l.size());
+            (void)r;
+        };
+        say("clone");
+        std::string err = j->w->cloneCheck(j->m);
+        if (!err.empty()) {
+            say("clone-differs " + err);
+            _exit(3);
+        }
+        auto model = j->w->get<Model>(j->m);
+        say("flatten");
+        (void)Importer::create()->flattenModel(model);
+        say("print");
+        (void)Printer::create()->printModel(model);
+        (void)Printer::create()->printModel(model, true);
+        say("validate");
+        Validator::create()->validateModel(model);
+        say("done");
+    }
+    bool probes()
+    {
+        for (size_t mi = 0; mi < objs.size(); ++mi) {
+            if (!objs[mi].alive || objs[mi].kind != MODEL) {
+                continue;
+            }
+            int m = static_cast<int>(mi);
+            std::vector<int> comps, vars;
+            scope(m, COMP, true, comps);
+            for (int cc : comps) {
+                for (int v : o(cc).kids[VAR]) {
+                    vars.push_back(v);
+                }
+            }
+            bool any = false, crosses = false;
+            uint64_t h = 1469598103934665603ULL;
+            auto mixIn = [&](uint64_t x) { h = (h ^ x) * 1099511628211ULL; };
+            for (int v : vars) {
+                mixIn(static_cast<uint64_t>(v) + 1);
+            }
+            for (const auto &pr : eq) {
+                bool a = std::find(vars.begin(), vars.end(), pr.first) != vars.end();
+                bool b = std::find(vars.begin(), vars.end(), pr.second) != vars.end();
+                if (a || b) {
+                    any = true;
+                    crosses = crosses || (a != b);
+                    mixIn(static_cast<uint64_t>(pr.first) * 1000003ULL + static_cast<uint64_t>(pr.second) + (a != b ? 7919 : 0));
+                }
+            }
+            if (!any || lastProbe[m] == h) {
+                continue;
+            }
+            lastProbe[m] = h;
+            std::string rel = crosses ? "equivalence-leaves-model" : "equivalences-inside-model";
+            if (crosses && avoidKnown && probeIsKnownShape) {
+                c.count("excluded:known:whole-model-service-with-equivalence-leaving-the-model");
+                continue;
+            }
+            c.cls("probe:" + rel);
+            if (!crosses || !probeIsKnownShape) {
+                // (when the tree is not known to crash here the services are called like any other call: a crash is then an
+                // event of its own, triaged by bin/check from the running tape)
+                log += "probe " + objs[mi].label + (crosses ? ": clone, flatten, print, validate\n" : ": clone\n");
+                std::string err = cloneCheck(m);
+                if (!err.empty()) {
+                    log += "   <== " + err + "\n";
+                    c.fail("C09.clone|probe:clone|" + rel, err + "\nhistory:\n" + log);
+                    return false;
+                }
+                if (crosses) {
+                    auto model = get<Model>(m);
+                    (void)Importer::create()->flattenModel(model);
+                    (void)Printer::create()->printModel(model);
+                    (void)Printer::create()->printModel(model, true);
+                    Validator::create()->validateModel(model);
+                }
+            } else {
+                log += "probe " + objs[mi].label + ": clone, flatten, print, validate (forked)\n";
+                ProbeJob job {this, m};
+                std::string diag;
+                int rc = runIsolated(probeChild, &job, 60, &diag);
+                if (rc != 0) {
+                    size_t at = diag.rfind("VP-PROBE-AT ");
+                    std::string where = at == std::string::npos ? "?" : diag.substr(at + 12, diag.find_first_of(" \n", at + 12) - at - 12);
+                    if (rc == 3 && where == "clone-differs") {
+                        std::string err = diag.substr(at + 26, diag.find('\n', at) - at - 26);
+                        log += "   <== " + err + "\n";
+                        c.fail("C09.clone|probe:clone|" + rel, err + "\nhistory:\n" + log);
+                    } else {
+                        size_t asan = diag.find("runtime error: ");
+                        std::string what = asan != std::string::npos ? diag.substr(asan, diag.find('\n', asan) - asan) : (diag.find("AddressSanitizer") != std::string::npos ? "AddressSanitizer report" : "died");
+                        log += "   <== " + where + ": " + what + "\n";
+                        c.fail("C09.crash|probe:" + where + "|" + rel, where + " on " + objs[mi].label + " " + what + " (child status " + std::to_string(rc) + ")\n" + diag.substr(0, 2500) + "\nhistory:\n" + log);
+                    }
+                    return false;
+                }
+            }
+        }
+        std::string diff = compare();
+        if (!diff.empty()) {
+            size_t bar = diff.find('|');
+            c.fail("C09." + diff.substr(0, bar) + "|probe|changed-its-argument", diff.substr(bar + 1) + "\nhistory:\n" + log);
+            return false;
+        }
+        return true;
+    }
+    bool probeIsKnownShape = false;
+
     // Everything that is decided about a call before it is made.
     struct Analysis
     {
@@ -794,6 +986,9 @@ struct World
         if (d.act == EQADD || d.act == EQADD4 || d.act == EQREMOVE) {
             auto key = std::make_pair(std::min(cl.K, cl.a), std::max(cl.K, cl.a));
             an.rel = cl.K == cl.a ? "same-variable" : (eq.count(key) ? "equivalent" : "not-equivalent");
+            if (d.act == EQADD && an.rel == "not-equivalent" && idsLeftBehind.count(key)) {
+                an.rel += ",after-removeAllEquivalences-of-a-pair-with-ids";
+            }
         }
         return an;
     }
@@ -937,6 +1132,11 @@ struct World
             retText = r ? "true" : "false";
             if (expect) {
                 eq.insert(key);
+                mids[key] = "";
+            }
+            if (d.act == EQADD4 && cl.K != cl.a) {
+                mids[key] = "mid"; // the 4-argument form (re)sets the ids of an existing equivalence too
+                idsLeftBehind.erase(key);
             }
             if (r != expect) {
                 retWrong = expect ? "returned false for a new equivalence" : "returned true for an existing / reflexive equivalence";
@@ -949,6 +1149,10 @@ struct World
             bool r = Variable::removeEquivalence(get<Variable>(cl.K), get<Variable>(cl.a));
             retText = r ? "true" : "false";
             eq.erase(key);
+            mids.erase(key);
+            if (expect) {
+                idsLeftBehind.erase(key);
+            }
             if (r != expect) {
                 retWrong = expect ? "returned false for an existing equivalence" : "returned true for a missing equivalence";
             }
@@ -957,7 +1161,15 @@ struct World
         case EQCLEAR: {
             get<Variable>(cl.K)->removeAllEquivalences();
             for (auto it = eq.begin(); it != eq.end();) {
-                it = (it->first == cl.K || it->second == cl.K) ? eq.erase(it) : std::next(it);
+                if (it->first == cl.K || it->second == cl.K) {
+                    if (!mids[*it].empty()) {
+                        idsLeftBehind.insert(*it);
+                    }
+                    mids.erase(*it);
+                    it = eq.erase(it);
+                } else {
+                    ++it;
+                }
             }
             break;
         }
@@ -1037,10 +1249,42 @@ Call mk(const char *op, int K, int a = -1, int b = -1)
 // of a listed shape are skipped and counted so that the search goes on beyond them; "allow" histories run them.
 // The shapes that were listed here (equals()-based lookup, self insertion, replacement by an ancestor / by a parented
 // object; see notes/C09.md F1-F3) are fixed in /repo, so nothing is skipped any more; the tape layout is unchanged.
+// Two defects found by the independent exploration (notes/C09.md) would end most histories that touch them. Whether the
+// tree under test still has them is established once per process (init below) by two three-call probes; while it has,
+// "avoid" histories skip the shapes (counted) and the whole-model service probes run in a forked child.
+bool kKnownCloneWithOutsideEquivalence = false; // Model::clone()/flattenModel() crash when an equivalence leaves the model (C09-fix-9)
+bool kKnownIdsLeftBehind = false; // removeAllEquivalences() keeps the variable's own mapping/connection ids (C09-fix-14)
+void cloneProbe(void *)
+{
+    auto m = Model::create("m");
+    auto c1 = Component::create("c1");
+    auto c2 = Component::create("c2");
+    auto v1 = Variable::create("v1");
+    auto v2 = Variable::create("v2");
+    m->addComponent(c1);
+    m->addComponent(c2);
+    c1->addVariable(v1);
+    c2->addVariable(v2);
+    Variable::addEquivalence(v1, v2);
+    c2->removeVariable(v2);
+    (void)m->clone();
+}
+void init()
+{
+    std::string diag;
+    kKnownCloneWithOutsideEquivalence = runIsolated(cloneProbe, nullptr, 30, &diag) != 0;
+    auto a = Variable::create("a");
+    auto b = Variable::create("b");
+    Variable::addEquivalence(a, b, "mapping_id", "connection_id");
+    a->removeAllEquivalences();
+    Variable::addEquivalence(a, b);
+    kKnownIdsLeftBehind = !Variable::equivalenceMappingId(a, b).empty();
+}
 std::string knownShape(const OpDef &d, const World::Analysis &an)
 {
-    (void)d;
-    (void)an;
+    if (kKnownIdsLeftBehind && d.act == EQADD && an.rel.find("after-removeAllEquivalences") != std::string::npos) {
+        return "ids-left-by-removeAllEquivalences";
+    }
     return "";
 }
 
@@ -1059,6 +1303,8 @@ void run(Src &src, Case &c)
         preset = static_cast<int>(src.below(5));
     }
     c.cls(allowKnown ? "mode:allow-known" : "mode:avoid-known");
+    w.avoidKnown = !allowKnown;
+    w.probeIsKnownShape = kKnownCloneWithOutsideEquivalence;
 
     // A preset is a fixed call list: it is executed with all checks the first time this process sees it and replayed
     // without them afterwards (same calls, same objects, same outcome).
@@ -1104,8 +1350,8 @@ void run(Src &src, Case &c)
             if (preset == 2) ok = runPreset({mk("addComponent", M[0], C[0]), mk("addComponent", C[0], C[1])});
             break;
         case 1:
-            make(0, 2, 3, 0, 0);
-            if (preset == 1) ok = runPreset({mk("addVariable", C[0], V[0]), mk("addVariable", C[0], V[1]), mk("addVariable", C[1], V[2]), mk("Variable::addEquivalence", V[0], V[2])});
+            make(1, 2, 3, 0, 0);
+            if (preset == 1) ok = runPreset({mk("addComponent", M[0], C[0]), mk("addComponent", M[0], C[1]), mk("addVariable", C[0], V[0]), mk("addVariable", C[0], V[1]), mk("addVariable", C[1], V[2]), mk("Variable::addEquivalence#4", V[0], V[2])});
             break;
         case 2:
             make(2, 0, 0, 3, 0);
@@ -1430,6 +1676,9 @@ void run(Src &src, Case &c)
             }
         }
         ok = w.step(cl, an);
+        if (ok) {
+            ok = w.probes();
+        }
     }
 
     c.text = (gExhaustive ? "exhaustive family " + std::to_string(family) : std::string(allowKnown ? "allow-known" : "avoid-known")) + " preset " + std::to_string(preset) + "\n" + w.log;
@@ -1473,5 +1722,6 @@ Property property = {
     setMode,
     {"adding an entity to the container that already holds it (and replacing by an entity the searched container already lists) is outside the claim: never generated, counted",
      "by-name operations may affect any object of that name within the searched scope; lookup order is not part of the claim", "null arguments are the subject of the C09_args table, histories never pass null"},
+    init,
 };
 }
